@@ -89,7 +89,7 @@ OPS = {
     B('last-iteration-off-by-one', CVP + 'call_variant_peptide', expr_text('i + 1 == len(tx_sorted)'), replace_with('i == len(tx_sorted)'), 'C06.a'),
     B('no-reset', CVP + 'call_variant_peptide', stmt_text('dispatches = []', nth=1), to_pass, 'C06.a'),
     B('flush-by-batch-size-only', CVP + 'call_variant_peptide', expr_text('(i + 1) % caller.threads == 0 or i + 1 == len(tx_sorted)'), replace_with('len(dispatches) >= caller.threads'), 'C06.a'),
-    B('result-reads-batch', CVP + 'call_variant_peptide', stmt_text('caller.tally.n_total_peptides += len(peptide_anno)'), add_after('_n = len(dispatches)'), 'C06.b'),
+    B('result-reads-batch', CVP + 'call_variant_peptide', stmt_text('caller.tally.n_total_peptides += len(peptide_anno)'), replace_with('caller.tally.n_total_peptides += len(peptide_anno) + len(dispatches)'), 'C06.b'),
     B('no-series-sort', 'seqvar.VariantRecordPoolOnDisk:VariantRecordPoolOnDisk.__getitem__', stmt_text('series.sort()'), to_pass, 'C06.c'),
     B('first-pointer-only', 'seqvar.VariantRecordPoolOnDisk:VariantRecordPoolOnDisk.__getitem__', stmt_text('records += pointer.load()'), add_after('break'), 'C06.c'),
     B('index-overwrites', 'seqvar.VariantRecordPoolOnDisk:VariantRecordPoolOnDisk.load_index', stmt_text('self.pointers[pointer.key].append(pointer)'), replace_with('self.pointers[pointer.key] = [pointer]'), 'C06.c'),
